@@ -309,6 +309,7 @@ def applyAttr (d : Decoded) : Attr → Decoded
   | .data v => { d with data := some v }
   | .lifetime v => { d with lifetime := some v }
   | .useCandidate => { d with useCandidate := true }
+  | .priority v => { d with priority := some v }
   | .xorPeer a => { d with peer := some a }
   | .xorMapped a => { d with mapped := some a }
   | _ => d
@@ -317,7 +318,7 @@ def applyAttr (d : Decoded) : Attr → Decoded
 are valid UTF-8, `u32` range, address shapes. -/
 def Attr.Ok : Attr → Prop
   | .realm v | .nonce v => validUtf8 v = true
-  | .lifetime v => v < 4294967296
+  | .lifetime v | .priority v => v < 4294967296
   | .xorPeer a | .xorMapped a => a.Wf
   | _ => True
 
@@ -332,7 +333,7 @@ theorem attrStep_attr (tx : Bytes) (d : Decoded) (a : Attr) (ha : a.Ok) (htx : t
   | realm v | nonce v =>
     have : validUtf8 v = true := ha
     simp [attrStep, attrType, attrValue, applyAttr, this]
-  | lifetime v =>
+  | lifetime v | priority v =>
     have hv : v < 4294967296 := ha
     simp only [attrStep, attrType, attrValue, applyAttr, be32]
     simp [rd32_be32 hv]
@@ -341,7 +342,7 @@ theorem attrStep_attr (tx : Bytes) (d : Decoded) (a : Attr) (ha : a.Ok) (htx : t
     simp [attrStep, attrType, attrValue, applyAttr, parseXor_xorValue a tx hw htx]
   | useCandidate => simp [attrStep, attrType, attrValue, applyAttr]
   | data v => simp [attrStep, attrType, attrValue, applyAttr]
-  | username v | software v | requestedTransport v | priority v | iceControlling v | iceControlled v
+  | username v | software v | requestedTransport v | iceControlling v | iceControlled v
     | channelNumber v =>
     simp [attrStep, attrType, attrValue, applyAttr]
 
